@@ -46,9 +46,12 @@ def allowed_parse_error(e):
     if monitors.is_parse_error(e) or monitors.is_library_error(e):
         return True
     if type(e) is SyntaxError:
-        # the column-less-table rule raises the built-in SyntaxError from a parse action of the library
-        cls, where = monitors.classify_exc(e)
-        return where != '-'
+        # the column-less-table rule raises the built-in SyntaxError from a parse action of the library: the frame that
+        # raised it must be library code itself (not ast / compile reached from the library)
+        import os
+        import traceback
+        tb = traceback.extract_tb(e.__traceback__)
+        return bool(tb) and os.path.realpath(tb[-1].filename).startswith(monitors.PKG)
     return False
 
 
@@ -325,9 +328,16 @@ def run_shard(spec, tier, seed, budget_s):
     # hostile literals in the default position
     if i == 1:
         for lit in ['1.2.3', '1..2', '10.0.0.1', '.5', '5.', '1e5', '-1', '+1', '0x10', '1_000', '１２', '1.', '..', 'tru', 'nul', 'NULLL', '`', '``', "''", '""',
+                    '007', '01', '00', '0.50', '00.25', '9' * 5000, '1.' + '9' * 5000, '0' * 400 + '1',
                     "'''", '#fff', '1 2', '1,2', '(1)', '[1]', '{1}']:
             run_input(sh, 'Table t {\n a int [default: ' + lit + ']\n}', 'literal', feats={'literal': lit})
             run_input(sh, 'Table t {\n a int [default: ' + lit + ', pk]\n b int\n}', 'literal', feats={'literal': lit})
+    if i == 2:
+        for ty in ['decimal(10,\n 2)', 'varchar(\n255\n)', "enum('a',\n'b')", 'numeric(10,\n\n2)', 'f(g(\n1))', 'x(\n)']:
+            run_input(sh, 'Table t {\n a ' + ty + '\n b int\n}', 'multiline-type', feats={'type': ty})
+            run_input(sh, 'Table t {\n a ' + ty + ' [pk, note: \'n\']\n}\nRef: t.a > t.a', 'multiline-type', feats={'type': ty})
+        for fld in ['version: 2', 'public: true', 'x: null', 'y: 1.5', 'z: `e`', "k: 'v' extra", 'k:', ': \'v\'', 'k k2: \'v\'', "k: 'a' 'b'"]:
+            run_input(sh, 'Project p {\n  ' + fld + '\n}\nTable t {\n a int\n}', 'project-field', feats={'field': fld})
     # hostile substitution
     k = 0
     target = {'quick': 150, 'thorough': 6000}[tier]
